@@ -66,13 +66,21 @@ type frame struct {
 	caller           *frame
 	fn               *ssa.Function
 	block, prevBlock *ssa.BasicBlock
-	env              map[ssa.Value]value // dynamic values of SSA variables
+	env              []value // dynamic values of SSA variables, indexed by slot
+	isset            []bool
+	slots            map[ssa.Value]int
 	locals           []value
 	defers           *deferred
 	result           value
 	panicking        bool
 	panic            interface{}
 	phitemps         []value // temporaries for parallel phi assignment
+}
+
+func (fr *frame) set(key ssa.Value, v value) {
+	idx := fr.slots[key]
+	fr.env[idx] = v
+	fr.isset[idx] = true
 }
 
 func (fr *frame) get(key ssa.Value) value {
@@ -86,8 +94,10 @@ func (fr *frame) get(key ssa.Value) value {
 	case *ssa.Global:
 		return fr.i.global(key)
 	}
-	if r, ok := fr.env[key]; ok {
-		return r
+	if idx, ok := fr.slots[key]; ok {
+		if r := fr.env[idx]; r != nil || fr.isset[idx] {
+			return r
+		}
 	}
 	panic(engineError(fmt.Sprintf("get: no value for %T: %v", key, key.Name())))
 }
@@ -178,35 +188,35 @@ func visitInstr(fr *frame, instr ssa.Instruction) continuation {
 		// no-op
 
 	case *ssa.UnOp:
-		fr.env[instr] = unop(instr, fr.get(instr.X))
+		fr.set(instr, unop(instr, fr.get(instr.X)))
 
 	case *ssa.BinOp:
-		fr.env[instr] = binop(instr.Op, instr.X.Type(), fr.get(instr.X), fr.get(instr.Y))
+		fr.set(instr, binop(instr.Op, instr.X.Type(), fr.get(instr.X), fr.get(instr.Y)))
 
 	case *ssa.Call:
 		fn, args := prepareCall(fr, &instr.Call)
-		fr.env[instr] = call(fr.i, fr, instr.Pos(), fn, args)
+		fr.set(instr, call(fr.i, fr, instr.Pos(), fn, args))
 
 	case *ssa.ChangeInterface:
-		fr.env[instr] = fr.get(instr.X)
+		fr.set(instr, fr.get(instr.X))
 
 	case *ssa.ChangeType:
-		fr.env[instr] = fr.get(instr.X) // (can't fail)
+		fr.set(instr, fr.get(instr.X)) // (can not fail)
 
 	case *ssa.Convert:
-		fr.env[instr] = conv(instr.Type(), instr.X.Type(), fr.get(instr.X))
+		fr.set(instr, conv(instr.Type(), instr.X.Type(), fr.get(instr.X)))
 
 	case *ssa.SliceToArrayPointer:
-		fr.env[instr] = sliceToArrayPointer(instr.Type(), instr.X.Type(), fr.get(instr.X))
+		fr.set(instr, sliceToArrayPointer(instr.Type(), instr.X.Type(), fr.get(instr.X)))
 
 	case *ssa.MakeInterface:
-		fr.env[instr] = iface{t: instr.X.Type(), v: fr.get(instr.X)}
+		fr.set(instr, iface{t: instr.X.Type(), v: fr.get(instr.X)})
 
 	case *ssa.Extract:
-		fr.env[instr] = fr.get(instr.Tuple).(tuple)[instr.Index]
+		fr.set(instr, fr.get(instr.Tuple).(tuple)[instr.Index])
 
 	case *ssa.Slice:
-		fr.env[instr] = slice(fr.get(instr.X), fr.get(instr.Low), fr.get(instr.High), fr.get(instr.Max))
+		fr.set(instr, slice(fr.get(instr.X), fr.get(instr.Low), fr.get(instr.High), fr.get(instr.Max)))
 
 	case *ssa.Return:
 		switch len(instr.Results) {
@@ -265,17 +275,17 @@ func visitInstr(fr *frame, instr ssa.Instruction) continuation {
 		fr.i.spawned = append(fr.i.spawned, &thunk{fn: fn, args: args, pos: instr.Pos()})
 
 	case *ssa.MakeChan:
-		fr.env[instr] = &vchan{cap: int(concreteInt(fr.get(instr.Size), "chan size"))}
+		fr.set(instr, &vchan{cap: int(concreteInt(fr.get(instr.Size), "chan size"))})
 
 	case *ssa.Alloc:
 		var addr *value
 		if instr.Heap {
 			// new
 			addr = new(value)
-			fr.env[instr] = addr
+			fr.set(instr, addr)
 		} else {
 			// local
-			addr = fr.env[instr].(*value)
+			addr = fr.env[fr.slots[instr]].(*value)
 		}
 		*addr = zero(mustDeref(instr.Type()))
 
@@ -290,22 +300,22 @@ func visitInstr(fr *frame, instr ssa.Instruction) continuation {
 		for i := range slice {
 			slice[i] = zero(tElt)
 		}
-		fr.env[instr] = slice[:l]
+		fr.set(instr, slice[:l])
 
 	case *ssa.MakeMap:
-		fr.env[instr] = makeMap(instr.Type().Underlying().(*types.Map).Key(), 0)
+		fr.set(instr, makeMap(instr.Type().Underlying().(*types.Map).Key(), 0))
 
 	case *ssa.Range:
-		fr.env[instr] = rangeIter(fr, fr.get(instr.X), instr.X.Type())
+		fr.set(instr, rangeIter(fr, fr.get(instr.X), instr.X.Type()))
 
 	case *ssa.Next:
-		fr.env[instr] = fr.get(instr.Iter).(iter).next()
+		fr.set(instr, fr.get(instr.Iter).(iter).next())
 
 	case *ssa.FieldAddr:
-		fr.env[instr] = &(*fr.get(instr.X).(*value)).(structure)[instr.Field]
+		fr.set(instr, &(*fr.get(instr.X).(*value)).(structure)[instr.Field])
 
 	case *ssa.Field:
-		fr.env[instr] = fr.get(instr.X).(structure)[instr.Field]
+		fr.set(instr, fr.get(instr.X).(structure)[instr.Field])
 
 	case *ssa.IndexAddr:
 		x := fr.get(instr.X)
@@ -328,9 +338,9 @@ func visitInstr(fr *frame, instr ssa.Instruction) continuation {
 			if !ex.decide(inb) {
 				panic(runtimePanic("index out of range (symbolic index)"))
 			}
-			fr.env[instr] = &elems[ex.concretize(s, "element address index")]
+			fr.set(instr, &elems[ex.concretize(s, "element address index")])
 		} else {
-			fr.env[instr] = &elems[asInt64(idx)]
+			fr.set(instr, &elems[asInt64(idx)])
 		}
 
 	case *ssa.Index:
@@ -339,11 +349,11 @@ func visitInstr(fr *frame, instr ssa.Instruction) continuation {
 		if s, ok := idx.(symInt); ok {
 			switch x := x.(type) {
 			case array:
-				fr.env[instr] = indexSym(s.x, x, s)
+				fr.set(instr, indexSym(s.x, x, s))
 			case string:
-				fr.env[instr] = indexSym(s.x, strBytes(x), s)
+				fr.set(instr, indexSym(s.x, strBytes(x), s))
 			case *sstr:
-				fr.env[instr] = indexSym(s.x, x.b, s)
+				fr.set(instr, indexSym(s.x, x.b, s))
 			default:
 				panic(fmt.Sprintf("unexpected x type in Index: %T", x))
 			}
@@ -351,11 +361,11 @@ func visitInstr(fr *frame, instr ssa.Instruction) continuation {
 		}
 		switch x := x.(type) {
 		case array:
-			fr.env[instr] = x[asInt64(idx)]
+			fr.set(instr, x[asInt64(idx)])
 		case string:
-			fr.env[instr] = x[asInt64(idx)]
+			fr.set(instr, x[asInt64(idx)])
 		case *sstr:
-			fr.env[instr] = x.b[asInt64(idx)]
+			fr.set(instr, x.b[asInt64(idx)])
 		default:
 			panic(fmt.Sprintf("unexpected x type in Index: %T", x))
 		}
@@ -365,13 +375,13 @@ func visitInstr(fr *frame, instr ssa.Instruction) continuation {
 		if isStr(x) { // string index via Lookup
 			idx := fr.get(instr.Index)
 			if s, ok := idx.(symInt); ok {
-				fr.env[instr] = indexSym(s.x, strBytes(x), s)
+				fr.set(instr, indexSym(s.x, strBytes(x), s))
 			} else {
-				fr.env[instr] = strBytes(x)[asInt64(idx)]
+				fr.set(instr, strBytes(x)[asInt64(idx)])
 			}
 			break
 		}
-		fr.env[instr] = lookup(instr, x, fr.get(instr.Index))
+		fr.set(instr, lookup(instr, x, fr.get(instr.Index)))
 
 	case *ssa.MapUpdate:
 		m := fr.get(instr.Map)
@@ -380,14 +390,14 @@ func visitInstr(fr *frame, instr ssa.Instruction) continuation {
 		m.(*omap).insert(key, copyVal(v))
 
 	case *ssa.TypeAssert:
-		fr.env[instr] = typeAssert(fr.i, instr, fr.get(instr.X).(iface))
+		fr.set(instr, typeAssert(fr.i, instr, fr.get(instr.X).(iface)))
 
 	case *ssa.MakeClosure:
 		var bindings []value
 		for _, binding := range instr.Bindings {
 			bindings = append(bindings, fr.get(binding))
 		}
-		fr.env[instr] = &closure{instr.Fn.(*ssa.Function), bindings}
+		fr.set(instr, &closure{instr.Fn.(*ssa.Function), bindings})
 
 	case *ssa.Phi:
 		panic(engineError("unreachable phi")) // phis are processed at block entry
@@ -430,7 +440,7 @@ func visitInstr(fr *frame, instr ssa.Instruction) continuation {
 				r = append(r, v)
 			}
 		}
-		fr.env[instr] = r
+		fr.set(instr, r)
 
 	default:
 		panic(engineError(fmt.Sprintf("unexpected instruction: %T", instr)))
@@ -542,18 +552,20 @@ func callSSA(i *interpreter, caller *frame, callpos token.Pos, fn *ssa.Function,
 		i.x.Stats.Funcs[info.name]++
 	}
 
-	fr.env = make(map[ssa.Value]value)
+	fr.slots = info.slotMap(fn)
+	fr.env = make([]value, len(fr.slots))
+	fr.isset = make([]bool, len(fr.slots))
 	fr.block = fn.Blocks[0]
 	fr.locals = make([]value, len(fn.Locals))
 	for i, l := range fn.Locals {
 		fr.locals[i] = zero(mustDeref(l.Type()))
-		fr.env[l] = &fr.locals[i]
+		fr.set(l, &fr.locals[i])
 	}
 	for i, p := range fn.Params {
-		fr.env[p] = args[i]
+		fr.set(p, args[i])
 	}
 	for i, fv := range fn.FreeVars {
-		fr.env[fv] = env[i]
+		fr.set(fv, env[i])
 	}
 	for fr.block != nil {
 		runFrame(fr)
@@ -620,7 +632,7 @@ func executePhis(fr *frame) []ssa.Instruction {
 			fr.phitemps = append(fr.phitemps, fr.get(phi.Edges[predIndex]))
 		}
 		for i, phi := range phis {
-			fr.env[phi.(*ssa.Phi)] = fr.phitemps[i]
+			fr.set(phi.(*ssa.Phi), fr.phitemps[i])
 		}
 	}
 	return nonPhis
@@ -657,9 +669,42 @@ func doRecover(caller *frame) value {
 }
 
 type fnInfo struct {
-	name string
-	ext  externalFn
-	repo bool
+	name  string
+	ext   externalFn
+	repo  bool
+	once  sync.Once
+	slots map[ssa.Value]int
+}
+
+// slotMap numbers every SSA value of fn (parameters, free variables, locals
+// and value-producing instructions) once; frames index a slice with it.
+func (info *fnInfo) slotMap(fn *ssa.Function) map[ssa.Value]int {
+	info.once.Do(func() {
+		m := map[ssa.Value]int{}
+		add := func(v ssa.Value) {
+			if _, ok := m[v]; !ok {
+				m[v] = len(m)
+			}
+		}
+		for _, p := range fn.Params {
+			add(p)
+		}
+		for _, fv := range fn.FreeVars {
+			add(fv)
+		}
+		for _, l := range fn.Locals {
+			add(l)
+		}
+		for _, b := range fn.Blocks {
+			for _, ins := range b.Instrs {
+				if v, ok := ins.(ssa.Value); ok {
+					add(v)
+				}
+			}
+		}
+		info.slots = m
+	})
+	return info.slots
 }
 
 var fnInfos sync.Map // *ssa.Function -> *fnInfo
